@@ -448,15 +448,17 @@ func (t TypeHandle) HasType(c ast.Constant) bool {
 	if !ok {
 		return false // This never happens.
 	}
-	switch tpe.Function {
-	case PairType:
+	// Compare by symbol: type expressions that come from source text carry the
+	// actual number of arguments as arity, the variadic symbols below carry -1.
+	switch tpe.Function.Symbol {
+	case PairType.Symbol:
 		fst, snd, err := c.PairValue()
 		if err != nil {
 			return false
 		}
 		return TypeHandle{tpe.Args[0], t.ctx}.HasType(fst) &&
 			TypeHandle{tpe.Args[1], t.ctx}.HasType(snd)
-	case ListType:
+	case ListType.Symbol:
 		elementType := TypeHandle{tpe.Args[0], t.ctx}
 		shapeErr, err := c.ListValues(func(e ast.Constant) error {
 			if !elementType.HasType(e) {
@@ -473,9 +475,9 @@ func (t TypeHandle) HasType(c ast.Constant) bool {
 			return false
 		}
 		return true
-	case TupleType:
+	case TupleType.Symbol:
 		return TypeHandle{expandTupleType(tpe.Args), t.ctx}.HasType(c)
-	case MapType:
+	case MapType.Symbol:
 		if c.IsMapNil() {
 			return true
 		}
@@ -490,7 +492,7 @@ func (t TypeHandle) HasType(c ast.Constant) bool {
 			return nil
 		})
 		return e == nil && err == nil
-	case StructType:
+	case StructType.Symbol:
 		if c.IsStructNil() {
 			return len(tpe.Args) == 0
 		}
@@ -528,7 +530,7 @@ func (t TypeHandle) HasType(c ast.Constant) bool {
 			return nil
 		})
 		return e == nil && err == nil && len(fieldTpeMap) == len(seen)
-	case UnionType:
+	case UnionType.Symbol:
 		for _, arg := range tpe.Args {
 			alt := TypeHandle{arg, t.ctx}
 			if alt.HasType(c) {
@@ -536,10 +538,10 @@ func (t TypeHandle) HasType(c ast.Constant) bool {
 			}
 		}
 		return false
-	case SingletonType:
+	case SingletonType.Symbol:
 		d := tpe.Args[0]
 		return c.Equals(d)
-	case TaggedUnionType:
+	case TaggedUnionType.Symbol:
 		expanded, err := ExpandTaggedUnionType(tpe)
 		if err != nil {
 			return false
@@ -984,7 +986,7 @@ func UpperBound(typeCtx map[ast.Variable]ast.BaseTerm, typeExprs []ast.BaseTerm)
 		if ast.AnyBound.Equals(typeExpr) {
 			return ast.AnyBound
 		}
-		if union, ok := typeExpr.(ast.ApplyFn); ok && union.Function == UnionType {
+		if union, ok := typeExpr.(ast.ApplyFn); ok && union.Function.Symbol == UnionType.Symbol {
 			worklist = append(worklist, union.Args...)
 			continue
 		}
@@ -1045,7 +1047,7 @@ func intersectType(typeCtx map[ast.Variable]ast.BaseTerm, a, b ast.BaseTerm) ast
 	if SetConforms(typeCtx, b, a) {
 		return b
 	}
-	if aUnion, ok := a.(ast.ApplyFn); ok && aUnion.Function == UnionType {
+	if aUnion, ok := a.(ast.ApplyFn); ok && aUnion.Function.Symbol == UnionType.Symbol {
 		var res []ast.BaseTerm
 		for _, elem := range aUnion.Args {
 			if u := intersectType(typeCtx, elem, b); !u.Equals(EmptyType) {
@@ -1054,7 +1056,7 @@ func intersectType(typeCtx map[ast.Variable]ast.BaseTerm, a, b ast.BaseTerm) ast
 		}
 		return UpperBound(typeCtx, res)
 	}
-	if bUnion, ok := b.(ast.ApplyFn); ok && bUnion.Function == UnionType {
+	if bUnion, ok := b.(ast.ApplyFn); ok && bUnion.Function.Symbol == UnionType.Symbol {
 		var res []ast.BaseTerm
 		for _, elem := range bUnion.Args {
 			if SetConforms(typeCtx, a, elem) {
